@@ -18,6 +18,7 @@ import (
 type engineError struct{ msg string }
 
 var traceCalls = os.Getenv("GOSMT_TRACE") != ""
+var traceFS = os.Getenv("GOSMT_TRACE_FS") != ""
 
 // pathEnd aborts the current path (engine-level, not a Go panic of the program under test).
 type pathEnd struct {
@@ -122,6 +123,7 @@ type Exec struct {
 	constCache   map[*ssa.Const]Value
 	pools        map[*Cell][]Value
 	evl          *eventLogT
+	hashInjective bool
 	cacheHits    int
 }
 
@@ -383,6 +385,15 @@ func (ex *Exec) callFunction(fn *ssa.Function, args []Value, fvs []Value) (ret V
 		ex.stubsUsed[d.name] = true
 		if !noMatIntrinsics[d.name] {
 			ex.matArgs(args)
+		}
+		if traceFS && (strings.HasPrefix(d.name, "os.") || strings.HasPrefix(d.name, "(*os.File)") || strings.HasPrefix(d.name, "path/filepath.Eval")) {
+			r := d.intr(ex, fn, args)
+			as := ""
+			for _, a := range args {
+				as += " " + describe(a)
+			}
+			fmt.Fprintf(os.Stderr, "FS %s%s => %s\n", d.name, as, describe(r))
+			return r
 		}
 		return d.intr(ex, fn, args)
 	}
